@@ -271,6 +271,28 @@ func runTotal(c totalCase) (fault string) {
 	})
 }
 
+func genGlued(r *Rng) clip.Paths64 {
+	dirs := []P{{X: 1, Y: 0}, {X: 0, Y: 1}, {X: 1, Y: 1}, {X: 1, Y: -1}, {X: 2, Y: 1}, {X: 1, Y: 2}, {X: -1, Y: 2}, {X: 2, Y: -1}}
+	d := dirs[r.Intn(len(dirs))]
+	b := P{X: int64(r.Range(0, 6)), Y: int64(r.Range(0, 6))}
+	at := func(t int) P { return P{X: b.X + int64(t)*d.X, Y: b.Y + int64(t)*d.Y} }
+	n := r.Range(2, 3)
+	var out clip.Paths64
+	for k := 0; k < n; k++ {
+		t0 := r.Range(0, 5)
+		t1 := t0 + r.Range(1, 4)
+		p := clip.Path64{at(t0), at(t1)}
+		for j := r.Range(1, 2); j > 0; j-- {
+			p = append(p, P{X: int64(r.Range(-2, 12)), Y: int64(r.Range(-2, 12))})
+		}
+		if r.Bool() {
+			p = clip.ReversePath(p)
+		}
+		out = append(out, p)
+	}
+	return out
+}
+
 func genTotalCase(r *Rng) totalCase {
 	g := GenCfg{Grid: r.Range(2, 6), Unit: []int64{1, 1, 10, 1 << 20}[r.Intn(4)], Ox: int64(r.Range(-2, 2)), Oy: int64(r.Range(-2, 2))}
 	c := totalCase{Fn: totalFns[r.Intn(len(totalFns))]}
@@ -282,6 +304,20 @@ func genTotalCase(r *Rng) totalCase {
 	}
 	if r.Chance(0.03) {
 		fr = r.Range(4, 9)
+	}
+	if r.Chance(0.42) {
+		// polygons glued along part of a common lattice line (shared vertices, partly shared
+		// collinear edges, either orientation): the touching configurations in which output rings
+		// are created, joined and owned in unusual orders — the PolyTree owner search, the join
+		// and split bookkeeping are exercised far more often than by independent random polygons
+		c.Fn = []string{"tree64", "tree64", "treeD", "engine64", "BooleanOpPaths64"}[r.Intn(5)]
+		c.A, c.B = genGlued(r), nil
+		if r.Bool() {
+			c.B = genGlued(r)
+		}
+		if ct == 0 {
+			ct = r.Range(1, 4)
+		}
 	}
 	prec := []int{2, 0, -8, 8, 3, -2}[r.Intn(6)]
 	if g.Unit > 1000 && prec > 1 && !r.Chance(0.05) {
@@ -323,10 +359,10 @@ type caseOut struct {
 // limit; a hang or an allocation loop in the library kills only the child, the parent records the
 // case it was working on (via onDeath) and restarts the child after it.
 type isoStage struct {
-	name     string
-	needOrc  bool
-	caseFn   func(ctx *Ctx, o *Oracle, i int) caseOut
-	onDeath  func(ctx *Ctx, i int, how string) *Violation
+	name    string
+	needOrc bool
+	caseFn  func(ctx *Ctx, o *Oracle, i int) caseOut
+	onDeath func(ctx *Ctx, i int, how string) *Violation
 }
 
 var isoStages = map[string]*isoStage{}
@@ -528,8 +564,8 @@ func init() {
 			c := genTotalCase(NewRng(ctx.Seed, "c03", i))
 			return &Violation{Property: "C03", Kind: "fault:" + c.Fn, Signature: c03Sig(c), Detail: c.Fn + ": " + how, Case: c, Stream: "c03", Index: i, Seed: ctx.Seed}
 		}},
-		"every exported operation on degenerate / adversarial inputs (nil and empty sets, empty, 1- and 2-point paths, repeated points, all-collinear, all-horizontal, zero-area, coincident polygons, empty or inverted rectangles, zero/negative/huge deltas, out-of-range enum values, NoClip), each under recover, a watchdog and an address-space limit in a child process; Execute* must return true; non-trivial = at least one path with ≥ 1 point reaches the callee; distinct by input",
-		60000, 5000000)
+		"every exported operation on degenerate / adversarial inputs (nil and empty sets, empty, 1- and 2-point paths, repeated points, all-collinear, all-horizontal, zero-area, coincident polygons, empty or inverted rectangles, zero/negative/huge deltas, out-of-range enum values, NoClip; 42 % of the cases are PolyTree / engine calls on 2-3 triangles and quadrilaterals glued along part of a common lattice line), each under recover, a watchdog and an address-space limit in a child process; Execute* must return true; non-trivial = at least one path with ≥ 1 point reaches the callee; distinct by input",
+		100000, 6000000)
 	replays["c03-search"] = func(ctx *Ctx, o *Oracle, raw json.RawMessage) *Violation {
 		var c totalCase
 		if err := json.Unmarshal(raw, &c); err != nil {
